@@ -50,7 +50,10 @@ pub fn build(seed: u64, t22: bool, rec: &mut Recorder) -> World {
         let p = price_of(t0) + w.rng.gen_range(0..1000);
         if adaptive && name == "P2" {
             let f = w.funder;
-            let ix = w.ix_init_pool_adaptive(name, "C1", a, b, 1024, sp, p, f, None);
+            // trading on the adaptive-fee pool is sometimes enabled only later: until then every swap through it fails,
+            // as a single swap and as either leg of a two-hop
+            let te = if w.rng.gen_bool(0.5) { Some((w.now + pick(&mut w, &[30i64, 600, 5000])) as u64) } else { None };
+            let ix = w.ix_init_pool_adaptive(name, "C1", a, b, 1024, sp, p, f, te);
             w.must_ix(&ix);
         } else {
             let ix = if t22 { w.ix_init_pool_v2(name, "C1", a, b, sp, p) } else { w.ix_init_pool(name, "C1", a, b, sp, p) };
@@ -129,7 +132,7 @@ pub fn run(seed: u64, worlds: usize, attempts: usize, rec: &mut Recorder) {
                 let pool = pick(&mut w, &["P1", "P2", "P3"]);
                 let a_to_b = w.rng.gen_bool(0.5);
                 let amt = log_uniform(&mut w, 5, 40) as u64;
-                let v2 = t22 || w.pools[pool].adaptive;
+                let v2 = t22 || w.rng.gen_bool(0.5);
                 let ix = w.ix_swap(pool, "U2", amt, 0, 0, true, a_to_b, v2);
                 rec.exec(&mut w, &ix, false, json!("move"));
             }
@@ -141,7 +144,7 @@ pub fn run(seed: u64, worlds: usize, attempts: usize, rec: &mut Recorder) {
             let exact_in = w.rng.gen_bool(0.6);
             let amount = log_uniform(&mut w, 3, 42) as u64;
             let (l1, l2) = (random_limit(&mut w, p1, d1), random_limit(&mut w, p2, d2));
-            let v2 = t22 || w.pools[p1].adaptive || w.pools[p2].adaptive || w.rng.gen_bool(0.5);
+            let v2 = t22 || w.rng.gen_bool(0.5);
             let vac = if exact_in { 0 } else { u64::MAX };
             // (1) the two-hop with a vacuous threshold on a copy -> realised amounts
             let mut t = w.clone();
@@ -151,7 +154,7 @@ pub fn run(seed: u64, worlds: usize, attempts: usize, rec: &mut Recorder) {
             let (_, m_out) = mints_of(&w, p2, d2);
             // (2) the two single swaps on another copy
             let mut s = w.clone();
-            let sv2 = |w: &World, pool: &str| t22 || w.pools[pool].adaptive || v2;
+            let sv2 = |_w: &World, _pool: &str| t22 || v2;
             let (s1, s2);
             if exact_in {
                 let b0 = s.clone();
@@ -224,7 +227,7 @@ fn same_pool_at_array_edge(w: &mut World, t22: bool, rec: &mut Recorder) {
     for pool in ["P1", "P3"] {
         let sp = w.pools[pool].spacing as i32;
         let span = sp * 88;
-        let v2p = t22 || w.pools[pool].adaptive;
+        let v2p = t22;
         for last in [true, false] {
             let t = w.pool_tick(pool);
             let s0 = t.div_euclid(span) * span;
